@@ -20,6 +20,62 @@ def reads_in(arm):
     return out
 
 
+LOSSLESS_CALL = re.compile(r"core::convert::(From|Into)|^<[^>]*as core::convert::(From|Into)<|variant::Variant::\w+$|convert::num::<impl core::convert::From<")
+
+
+def widening_impurities(body):
+    """operations on the data flow from the value read to the value stored (the argument of add_property) that are not a
+    lossless conversion: anything but From/Into, `as`, the Variant constructor and plain bindings"""
+    lets = {}
+    for st in core.walk_lets(body):
+        if st.get("init") is not None and st["pat"].get("k") == "Binding":
+            lets[st["pat"]["lid"]] = st["init"]
+    stores = [x for x in core.walk(body) if x.get("k") in ("Call", "MethodCall") and (core.callee(x) or "").endswith("add_property")]
+    bad = []
+
+    def rec(e, depth=0):
+        e = core.strip(e)
+        k = e.get("k")
+        if depth > 12:
+            return
+        if k == "Path":
+            if e.get("res") == "local" and e.get("lid") in lets:
+                rec(lets[e["lid"]], depth + 1)
+            return
+        if k in ("Cast", "AddrOf", "Unary", "DropTemps", "Field"):
+            rec(e["e"], depth + 1)
+            return
+        if k == "Call":
+            cal = core.callee(e) or ""
+            if LOSSLESS_CALL.search(cal):
+                for a in e["args"]:
+                    rec(a, depth + 1)
+                return
+            bad.append(core.short(cal) or "call")
+            return
+        if k == "MethodCall":
+            cal = core.callee(e) or ""
+            if LOSSLESS_CALL.search(cal) or e["m"] in ("into", "clone"):
+                rec(e["recv"], depth + 1)
+                return
+            bad.append(e["m"])
+            for a in [e["recv"]] + e["args"]:
+                rec(a, depth + 1)
+            return
+        if k == "Block" and "expr" in e["b"]:
+            rec(e["b"]["expr"], depth + 1)
+            return
+        if k == "Lit":
+            return
+        bad.append(k)
+    for st in stores:
+        args = core.call_args(st)
+        vals = [a for a in args if "Variant" in (a.get("ty") or "") or a is args[-1]]
+        for a in vals[-1:]:
+            rec(a)
+    return sorted(set(bad))
+
+
 def rule_widen(c, prog):
     R = "C04.widen"
     c.rule(R, "a narrower numeric encoding stored for a wider declared property loads exactly: arms (Int32, Int64) and (Float32, Float64) exist under the NARROW wire type, read that type's array grammar and convert with a lossless From; every arm under wire type T reads T's grammar")
@@ -37,7 +93,10 @@ def rule_widen(c, prog):
         okr = rd == [natural_read[wire]]
         okc = any(x.get("k") == "Call" and re.search(rf"<impl core::convert::From<{NATURAL[wire]}> for {conv}>::from$", core.callee(x) or "") for x in core.walk(arm["body"])) or \
             any(x.get("k") == "Cast" and x.get("ty") == conv and (core.strip(x["e"]).get("ty") == NATURAL[wire]) for x in core.walk(arm["body"]))
-        if okr and okc:
+        impure = widening_impurities(arm["body"]) if okc else []
+        if okr and okc and impure:
+            c.violation(R, f"inexact|{wire}|{declared}", f"arm (Type::{wire}, VariantType::{declared}): the value stored is not just the lossless conversion of what was read — it passes through {impure[:3]}; every {NATURAL[wire]} is exactly representable as {conv}, and anything else (a decimal text, arithmetic, a fallback) changes non-dyadic values", core.loc(arm["body"]), instance=inst)
+        elif okr and okc:
             c.ok(R, inst)
         else:
             c.violation(R, f"shape|{wire}|{declared}", f"arm (Type::{wire}, VariantType::{declared}) reads {rd} and {'converts losslessly' if okc else 'does not convert with From/as'}; expected [{natural_read[wire]}] then {conv}::from", core.loc(arm["body"]), instance=inst)
